@@ -270,6 +270,7 @@ type BytecodeCompiler struct {
 	loopJumpSets          []*bytecodeLoopJumpSet
 	offsetValueIds        []int           // ids of integers in the value pool that represent bytecode offsets
 	ownCallsToOptimise    []*bytecodeCall // late-bound calls emitted into this function (subset of globalData.callsToOptimise)
+	execBlockEnd          int             // for a <methodDefinitions> compiler: the parent's offset right after the EXEC block that runs it
 	secondToLastOpCode    bytecode.OpCode
 	lastOpCode            bytecode.OpCode
 	parent                *BytecodeCompiler
@@ -629,6 +630,7 @@ func (c *BytecodeCompiler) InitMethodCompiler(location *position.Location) (Comp
 	c.emitValue(value.Ref(methodCompiler.bytecode), location)
 	c.emit(location.StartPos.Line, bytecode.EXEC)
 	c.emit(location.StartPos.Line, bytecode.POP)
+	methodCompiler.execBlockEnd = c.nextInstructionOffset()
 
 	return methodCompiler, offset
 }
@@ -665,6 +667,14 @@ func (c *BytecodeCompiler) CompileMethods(location *position.Location, execOffse
 	c.optimiseCalls()
 	c.compileMethodsWithinModule(c.checker.Env().Root, location)
 	if len(c.bytecode.Instructions) > 0 {
+		c.emit(location.EndPos.Line, bytecode.NIL)
+		c.emit(location.EndPos.Line, bytecode.RETURN)
+		return
+	}
+
+	if c.parent.nextInstructionOffset() > c.execBlockEnd {
+		// the parent has emitted code after the EXEC block (eg. constant definitions):
+		// removing "the last bytes" would remove that code too, keep an empty function
 		c.emit(location.EndPos.Line, bytecode.NIL)
 		c.emit(location.EndPos.Line, bytecode.RETURN)
 		return
